@@ -200,10 +200,15 @@ Proof.
   discriminate.
 Qed.
 
+Lemma spell_in_values neg l a b e1 es :
+  spell (EIn neg l (CValues a b (e1 :: es))) =
+  spell l ++ (if neg then [tk "NOT"] else []) ++ tk "IN" :: tk "(" :: spell e1 ++ spell_more es ++ [tk ")"].
+Proof. reflexivity. Qed.
+
 Lemma can_first n e : can n e ->
   exists t r, spell e = t :: r /\ (n <= 9 -> kis t "NOT" = false) /\ (n <= 1 -> not_sign t).
 Proof.
-  induction 1 as [n m e H IH L|e A|e H IH|c base v Hc Hu|c v Hc Hu|op e Hop H IH Hf|e H IH|op n l r Ho Hn Hl IHl Hr IHr|op l r Ho Hl IHl Hr IHr].
+  induction 1 as [n m e H IH L|e A|e H IH|c base v Hc Hu|c v Hc Hu|op e Hop H IH Hf|e H IH|op n l r Ho Hn Hl IHl Hr IHr|op l r Ho Hl IHl Hr IHr|neg l Hl IHl|neg l v Hl IHl|neg l s x Hl IHl Hs IHs Hx IHx|neg l x Hl IHl Hx IHx|neg l e1 es Hl IHl H1 IH1 Hes].
   - destruct IH as (t & r & E & A & B). exists t, r. split; [exact E|]. split; intros; [apply A|apply B]; lia.
   - destruct (atom_first e A) as (t & r & E & N & Sg & _). exists t, r. auto.
   - cbn [spell]. eexists _, _; split; [reflexivity|]. split; intros; [reflexivity|repeat split; reflexivity].
@@ -220,6 +225,11 @@ Proof.
     split; [reflexivity|]. split; [exact A|]. pose proof (op_level_range _ _ Ho). intros; lia.
   - destruct IHl as (t & r0 & E & A & B). cbn [spell]. rewrite E. exists t, (r0 ++ op_toks op ++ spell r).
     split; [reflexivity|]. split; [intros; apply A; lia|intros; lia].
+  - destruct IHl as (t & r0 & E & A & B). cbn [spell]. rewrite E. eexists t, _. split; [reflexivity|]. split; [intros; apply A; lia|intros; lia].
+  - destruct IHl as (t & r0 & E & A & B). cbn [spell]. rewrite E. eexists t, _. split; [reflexivity|]. split; [intros; apply A; lia|intros; lia].
+  - destruct IHl as (t & r0 & E & A & B). cbn [spell]. rewrite E. eexists t, _. split; [reflexivity|]. split; [intros; apply A; lia|intros; lia].
+  - destruct IHl as (t & r0 & E & A & B). cbn [spell]. rewrite E. eexists t, _. split; [reflexivity|]. split; [intros; apply A; lia|intros; lia].
+  - destruct IHl as (t & r0 & E & A & B). rewrite spell_in_values. rewrite E. eexists t, _. split; [reflexivity|]. split; [intros; apply A; lia|intros; lia].
 Qed.
 
 (* ---------- from level n to level n+1 ---------- *)
@@ -325,7 +335,7 @@ Proof. intros H. cbn [skip_lparens cur]. rewrite H. reflexivity. Qed.
 (* spelled expressions begin with some "(" tokens followed by a token that is neither "(" nor SELECT *)
 Lemma can_lparens n e : can n e -> exists ps t r, spell e = ps ++ t :: r /\ Forall (fun p => p = tk "(") ps /\ kis t "(" = false /\ kis t "SELECT" = false.
 Proof.
-  induction 1 as [n m e H IH L|e A|e H IH|c base v Hc Hu|c v Hc Hu|op e Hop H IH Hf|e H IH|op n l r Ho Hn Hl IHl Hr IHr|op l r Ho Hl IHl Hr IHr].
+  induction 1 as [n m e H IH L|e A|e H IH|c base v Hc Hu|c v Hc Hu|op e Hop H IH Hf|e H IH|op n l r Ho Hn Hl IHl Hr IHr|op l r Ho Hl IHl Hr IHr|neg l Hl IHl|neg l v Hl IHl|neg l s x Hl IHl Hs IHs Hx IHx|neg l x Hl IHl Hx IHx|neg l e1 es Hl IHl H1 IH1 Hes].
   - exact IH.
   - destruct (atom_first e A) as (t & r & E & N & Sg & Pn & Se). exists [], t, r. rewrite E. repeat split; auto.
   - destruct IH as (ps & t & r & E & F & A & B). exists (tk "(" :: ps), t, (r ++ [tk ")"]). cbn [spell]. rewrite E.
@@ -340,6 +350,11 @@ Proof.
     split; [rewrite <- app_assoc; reflexivity|auto].
   - destruct IHl as (ps & t & r0 & E & F & A & B). cbn [spell]. rewrite E. exists ps, t, (r0 ++ op_toks op ++ spell r).
     split; [rewrite <- app_assoc; reflexivity|auto].
+  - destruct IHl as (ps & t & r0 & E & F & A & B). cbn [spell]. rewrite E. eexists ps, t, _. split; [rewrite <- app_assoc; reflexivity|auto].
+  - destruct IHl as (ps & t & r0 & E & F & A & B). cbn [spell]. rewrite E. eexists ps, t, _. split; [rewrite <- app_assoc; reflexivity|auto].
+  - destruct IHl as (ps & t & r0 & E & F & A & B). cbn [spell]. rewrite E. eexists ps, t, _. split; [rewrite <- app_assoc; reflexivity|auto].
+  - destruct IHl as (ps & t & r0 & E & F & A & B). cbn [spell]. rewrite E. eexists ps, t, _. split; [rewrite <- app_assoc; reflexivity|auto].
+  - destruct IHl as (ps & t & r0 & E & F & A & B). rewrite spell_in_values. rewrite E. eexists ps, t, _. split; [rewrite <- app_assoc; reflexivity|auto].
 Qed.
 
 Lemma skip_lparens_run ps t rest f : Forall (fun p => p = tk "(") ps -> kis t "(" = false -> length ps < f ->
@@ -469,9 +484,129 @@ Qed.
 Lemma Cont_level lv e K r : Cont (level_of lv) e K r = Parses (MLoop lv e) K r.
 Proof. destruct lv; reflexivity. Qed.
 
+Lemma Parses_is_null ts l (neg : bool) K : K <> [] ->
+  Parses (MBin BBitOr) ts (l, tk "IS" :: (if neg then [tk "NOT"] else []) ++ tk "NULL" :: K) -> Parses MCmp ts (EIsNull 0 neg l, K).
+Proof.
+  intros NE H1. common_fuel F. at_fuel F. apply (Parses_step _ _ _ F). cbn [step]. run_fuel.
+  destruct neg; vm_compute; destruct K; try congruence; reflexivity.
+Qed.
+
+Lemma Parses_is_bool ts l (neg v : bool) K : K <> [] ->
+  Parses (MBin BBitOr) ts (l, tk "IS" :: (if neg then [tk "NOT"] else []) ++ tk (if v then "TRUE" else "FALSE") :: K) ->
+  Parses MCmp ts (EIsBool 0 neg l v, K).
+Proof.
+  intros NE H1. common_fuel F. at_fuel F. apply (Parses_step _ _ _ F). cbn [step]. run_fuel.
+  destruct neg, v; vm_compute; destruct K; try congruence; reflexivity.
+Qed.
+
+Lemma Parses_between ts l (neg : bool) s x ts_s ts_x K : ts_s <> [] -> ts_x <> [] ->
+  Parses (MBin BBitOr) ts (l, (if neg then [tk "NOT"] else []) ++ tk "BETWEEN" :: ts_s) ->
+  Parses (MBin BBitOr) ts_s (s, tk "AND" :: ts_x) ->
+  Parses (MBin BBitOr) ts_x (x, K) ->
+  Parses MCmp ts (EBetween neg l s x, K).
+Proof.
+  intros N1 N2 H1 H2 H3. common_fuel F. at_fuel F. apply (Parses_step _ _ _ F). cbn [step]. run_fuel.
+  destruct neg; cbn [app cur].
+  - change (find_op (tk "NOT") cmp_ops) with (@None bytes). change (kis (tk "NOT") "IN") with false.
+    change (kis (tk "NOT") "BETWEEN") with false. change (kis (tk "NOT") "NOT") with true. cbv iota.
+    rewrite (next_cons (tk "NOT")) by discriminate. cbn [cur].
+    change (kis (tk "BETWEEN") "LIKE") with false. change (kis (tk "BETWEEN") "IN") with false. change (kis (tk "BETWEEN") "BETWEEN") with true. cbv iota.
+    rewrite (next_cons _ _ N1). run_fuel. unfold expect. cbn [cur]. change (kis (tk "AND") "AND") with true. cbv iota. cbn [bind].
+    rewrite (next_cons _ _ N2). run_fuel.
+  - change (find_op (tk "BETWEEN") cmp_ops) with (@None bytes). change (kis (tk "BETWEEN") "IN") with false.
+    change (kis (tk "BETWEEN") "BETWEEN") with true. cbv iota.
+    rewrite (next_cons _ _ N1). run_fuel. unfold expect. cbn [cur]. change (kis (tk "AND") "AND") with true. cbv iota. cbn [bind].
+    rewrite (next_cons _ _ N2). run_fuel.
+Qed.
+
+Lemma Parses_in_unnest ts l (neg : bool) x ts_x K : ts_x <> [] -> K <> [] ->
+  Parses (MBin BBitOr) ts (l, (if neg then [tk "NOT"] else []) ++ tk "IN" :: tk "UNNEST" :: tk "(" :: ts_x) ->
+  Parses (MBin BOr) ts_x (x, tk ")" :: K) ->
+  Parses MCmp ts (EIn neg l (CUnnest 0 0 x), K).
+Proof.
+  intros N1 N2 H1 H2. common_fuel F. at_fuel F. apply (Parses_step _ _ _ F). cbn [step]. run_fuel.
+  destruct neg; cbn [app cur].
+  - change (find_op (tk "NOT") cmp_ops) with (@None bytes). change (kis (tk "NOT") "IN") with false.
+    change (kis (tk "NOT") "BETWEEN") with false. change (kis (tk "NOT") "NOT") with true. cbv iota.
+    rewrite (next_cons (tk "NOT")) by discriminate. cbn [cur].
+    change (kis (tk "IN") "LIKE") with false. change (kis (tk "IN") "IN") with true. cbv iota.
+    rewrite (next_cons (tk "IN")) by discriminate.
+    change (maybe_subquery (tk "UNNEST" :: tk "(" :: ts_x)) with false. cbv iota. cbn [cur].
+    change (kis (tk "UNNEST") "(") with false. change (kis (tk "UNNEST") "UNNEST") with true. cbv iota.
+    rewrite (next_cons (tk "UNNEST")) by discriminate. unfold expect at 1. cbn [cur]. change (kis (tk "(") "(") with true. cbv iota. cbn [bind].
+    rewrite (next_cons _ _ N1). run_fuel. unfold expect. cbn [cur]. change (kis (tk ")") ")") with true. cbv iota. cbn [bind].
+    rewrite (next_cons _ _ N2). reflexivity.
+  - change (find_op (tk "IN") cmp_ops) with (@None bytes). change (kis (tk "IN") "IN") with true. cbv iota.
+    rewrite (next_cons (tk "IN")) by discriminate.
+    change (maybe_subquery (tk "UNNEST" :: tk "(" :: ts_x)) with false. cbv iota. cbn [cur].
+    change (kis (tk "UNNEST") "(") with false. change (kis (tk "UNNEST") "UNNEST") with true. cbv iota.
+    rewrite (next_cons (tk "UNNEST")) by discriminate. unfold expect at 1. cbn [cur]. change (kis (tk "(") "(") with true. cbv iota. cbn [bind].
+    rewrite (next_cons _ _ N1). run_fuel. unfold expect. cbn [cur]. change (kis (tk ")") ")") with true. cbv iota. cbn [bind].
+    rewrite (next_cons _ _ N2). reflexivity.
+Qed.
+
+Lemma length_spell_more es : length es <= length (spell_more es).
+Proof. induction es as [|x r IH]; cbn [spell_more length]; [lia|]. rewrite app_length. lia. Qed.
+
+(* the loop of parseCommaSeparatedList over the spelled further elements *)
+Lemma more_spell : forall es K acc, K <> [] ->
+  Forall (fun e => S_ 12 e) es ->
+  exists F0, forall F n, F0 <= F -> length es < n ->
+    more (P F (MBin BOr)) n acc (spell_more es ++ tk ")" :: K) = Ok ((acc ++ es)%list, tk ")" :: K).
+Proof.
+  induction es as [|e r IH]; intros K acc NE Fa.
+  - exists 0. intros F n _ L. destruct n as [|n]; [cbn in L; lia|]. cbn [spell_more app more cur].
+    change (kis (tk ")") ",") with false. cbv iota. rewrite app_nil_r. reflexivity.
+  - inversion Fa as [|? ? Se Fr]; subst.
+    destruct (IH K (acc ++ [e])%list NE Fr) as [F1 H1].
+    set (K' := spell_more r ++ tk ")" :: K).
+    assert (NK : K' <> []) by (unfold K'; destruct (spell_more r); discriminate).
+    assert (PE : Parses (MBin BOr) (spell e ++ K') (e, K')).
+    { apply Se.
+      - split; [exact NK|]. unfold K'. destruct r as [|x r']; cbn [spell_more app cur]; vm_compute; reflexivity.
+      - cbn [Cont]. apply Parses_loop_stop. unfold K'. destruct r as [|x r']; cbn [spell_more app cur]; reflexivity. }
+    destruct (Parses_fuel _ _ _ PE) as [F2 H2].
+    exists (F1 + F2). intros F n LF Ln. destruct n as [|n]; [cbn in Ln; lia|].
+    change (spell_more (e :: r) ++ tk ")" :: K) with (tk "," :: (spell e ++ spell_more r) ++ tk ")" :: K).
+    rewrite <- app_assoc. fold K'. cbn [more cur]. change (kis (tk ",") ",") with true. cbv iota. assert (NX : spell e ++ K' <> []) by (apply app_nonempty_r; exact NK). rewrite (next_cons _ _ NX).
+    rewrite (H2 F ltac:(lia)). cbn [bind]. unfold K'. rewrite (H1 F n ltac:(lia) ltac:(cbn [length] in Ln; lia)).
+    rewrite <- app_assoc. reflexivity.
+Qed.
+
+Lemma Parses_in_values ts l (neg : bool) e1 es ts_e K : ts_e <> [] -> K <> [] ->
+  maybe_subquery (tk "(" :: ts_e) = false ->
+  Parses (MBin BBitOr) ts (l, (if neg then [tk "NOT"] else []) ++ tk "IN" :: tk "(" :: ts_e) ->
+  Parses (MBin BOr) ts_e (e1, spell_more es ++ tk ")" :: K) ->
+  Forall (fun e => S_ 12 e) es ->
+  Parses MCmp ts (EIn neg l (CValues 0 0 (e1 :: es)), K).
+Proof.
+  intros N1 N2 MS H1 H2 Fa. destruct (more_spell es K [e1] N2 Fa) as [F0 HM].
+  common_fuel F. set (G := F + F0). assert (GF : F <= G) by (unfold G; lia). assert (GF0 : F0 <= G) by (unfold G; lia).
+  repeat match goal with
+         | Hf : forall f, ?f0 <= f -> P f ?m ?t = Ok ?r |- _ =>
+             let E := fresh "E" in assert (E : P G m t = Ok r) by (apply Hf; unfold G, F; lia); clear Hf
+         end.
+  apply (Parses_step _ _ _ G). cbn [step]. run_fuel.
+  assert (LM : length es < length (spell_more es ++ tk ")" :: K)).
+  { rewrite app_length. cbn [length]. pose proof (length_spell_more es). lia. }
+  destruct neg; cbn [app cur].
+  - change (find_op (tk "NOT") cmp_ops) with (@None bytes). change (kis (tk "NOT") "IN") with false.
+    change (kis (tk "NOT") "BETWEEN") with false. change (kis (tk "NOT") "NOT") with true. cbv iota.
+    rewrite (next_cons (tk "NOT")) by discriminate. cbn [cur].
+    change (kis (tk "IN") "LIKE") with false. change (kis (tk "IN") "IN") with true. cbv iota.
+    rewrite (next_cons (tk "IN")) by discriminate. rewrite MS. cbv iota. cbn [cur]. change (kis (tk "(") "(") with true. cbv iota.
+    rewrite (next_cons _ _ N1). run_fuel. rewrite (HM G _ GF0 LM). cbn [bind app].
+    unfold expect. cbn [cur]. change (kis (tk ")") ")") with true. cbv iota. cbn [bind]. rewrite (next_cons _ _ N2). reflexivity.
+  - change (find_op (tk "IN") cmp_ops) with (@None bytes). change (kis (tk "IN") "IN") with true. cbv iota.
+    rewrite (next_cons (tk "IN")) by discriminate. rewrite MS. cbv iota. cbn [cur]. change (kis (tk "(") "(") with true. cbv iota.
+    rewrite (next_cons _ _ N1). run_fuel. rewrite (HM G _ GF0 LM). cbn [bind app].
+    unfold expect. cbn [cur]. change (kis (tk ")") ")") with true. cbv iota. cbn [bind]. rewrite (next_cons _ _ N2). reflexivity.
+Qed.
+
 Theorem can_S n e : can n e -> n <= 12 -> S_ n e.
 Proof.
-  induction 1 as [n m e H IH L|e A|e H IH|c base v Hc Hu|c v Hc Hu|op e Hop H IH Hf|e H IH|op n l r Ho Hn Hl IHl Hr IHr|op l r Ho Hl IHl Hr IHr];
+  intros C. induction C as [n m e H IH L|e A|e H IH|c base v Hc Hu|c v Hc Hu|op e Hop H IH Hf|e H IH|op n l r Ho Hn Hl IHl Hr IHr|op l r Ho Hl IHl Hr IHr
+                           |neg l Hl IHl|neg l v Hl IHl|neg l s x Hl IHl Hs IHs Hx IHx|neg l x Hl IHl Hx IHx|neg l e1 es Hl IHl H1 IH1 Hes IHes] using can_ind';
     intros L12.
   - (* cumulativity *) apply (lift_to n m); auto. apply IH. lia.
   - (* atom *) intros K r Fo Co. cbn in Co. subst r. apply atom_parses; auto.
@@ -565,6 +700,70 @@ Proof.
         pose proof (optok_facts op 9 Ho) as S0. rewrite Et in S0. cbn [cur] in S0. eapply (stops_level 8 _ BBitOr); [exact S0|reflexivity].
       * exact Ft.
       * rewrite (next_cons _ _ NEr). exact PR.
+  - (* IS [NOT] NULL *)
+    intros K rr Fo Co. cbn [Cont] in Co. destruct Co as [-> Cs]. cbn [spell enter]. rewrite <- app_assoc.
+    replace ((tk "IS" :: (if neg then [tk "NOT"] else []) ++ [tk "NULL"]) ++ K) with (tk "IS" :: (if neg then [tk "NOT"] else []) ++ tk "NULL" :: K)
+      by (destruct neg; reflexivity).
+    apply Parses_is_null; [apply Fo|].
+    apply (IHl ltac:(lia)).
+    + apply follow_cons. vm_compute. reflexivity.
+    + cbn [Cont]. apply Parses_loop_stop. reflexivity.
+  - (* IS [NOT] TRUE / FALSE *)
+    intros K rr Fo Co. cbn [Cont] in Co. destruct Co as [-> Cs]. cbn [spell enter]. rewrite <- app_assoc.
+    replace ((tk "IS" :: (if neg then [tk "NOT"] else []) ++ [tk (if v then "TRUE" else "FALSE")]) ++ K)
+      with (tk "IS" :: (if neg then [tk "NOT"] else []) ++ tk (if v then "TRUE" else "FALSE") :: K) by (destruct neg; reflexivity).
+    apply Parses_is_bool; [apply Fo|].
+    apply (IHl ltac:(lia)).
+    + apply follow_cons. vm_compute. reflexivity.
+    + cbn [Cont]. apply Parses_loop_stop. reflexivity.
+  - (* [NOT] BETWEEN s AND x *)
+    intros K rr Fo Co. cbn [Cont] in Co. destruct Co as [-> Cs]. cbn [spell enter]. rewrite <- app_assoc.
+    replace (((if neg then [tk "NOT"] else []) ++ tk "BETWEEN" :: spell s ++ tk "AND" :: spell x) ++ K)
+      with ((if neg then [tk "NOT"] else []) ++ tk "BETWEEN" :: spell s ++ tk "AND" :: spell x ++ K)
+      by (destruct neg; cbn [app]; rewrite <- ?app_assoc; reflexivity).
+    cbn [Nat.pred] in Fo.
+    assert (NEx : spell x ++ K <> []) by (apply app_nonempty_r; apply Fo).
+    apply (Parses_between _ l neg s x (spell s ++ tk "AND" :: spell x ++ K) (spell x ++ K) K).
+    + apply app_nonempty_r. discriminate.
+    + exact NEx.
+    + apply (IHl ltac:(lia)).
+      * destruct neg; apply follow_cons; vm_compute; reflexivity.
+      * cbn [Cont]. apply Parses_loop_stop. destruct neg; reflexivity.
+    + apply (IHs ltac:(lia)).
+      * apply follow_cons. vm_compute. reflexivity.
+      * cbn [Cont]. apply Parses_loop_stop. reflexivity.
+    + apply (IHx ltac:(lia) K (x, K)); [eapply follow_mono; [|exact Fo]; lia|]. cbn [Cont]. apply Parses_loop_stop.
+      eapply (stops_level 8 _ BBitOr); [apply Fo|reflexivity].
+  - (* [NOT] IN UNNEST ( x ) *)
+    intros K rr Fo Co. cbn [Cont] in Co. destruct Co as [-> Cs]. cbn [spell enter]. rewrite <- app_assoc.
+    replace (((if neg then [tk "NOT"] else []) ++ tk "IN" :: tk "UNNEST" :: tk "(" :: spell x ++ [tk ")"]) ++ K)
+      with ((if neg then [tk "NOT"] else []) ++ tk "IN" :: tk "UNNEST" :: tk "(" :: spell x ++ tk ")" :: K)
+      by (destruct neg; cbn [app]; rewrite <- ?app_assoc; reflexivity).
+    apply (Parses_in_unnest _ l neg x (spell x ++ tk ")" :: K) K).
+    + apply app_nonempty_r. discriminate.
+    + apply Fo.
+    + apply (IHl ltac:(lia)).
+      * destruct neg; apply follow_cons; vm_compute; reflexivity.
+      * cbn [Cont]. apply Parses_loop_stop. destruct neg; reflexivity.
+    + apply (IHx (le_n _)). { apply follow_cons. vm_compute. reflexivity. }
+      cbn [Cont]. apply Parses_loop_stop. reflexivity.
+  - (* [NOT] IN ( e1 , ... ) *)
+    intros K rr Fo Co. cbn [Cont] in Co. destruct Co as [-> Cs]. cbn [enter]. rewrite spell_in_values. rewrite <- app_assoc.
+    replace (((if neg then [tk "NOT"] else []) ++ tk "IN" :: tk "(" :: spell e1 ++ spell_more es ++ [tk ")"]) ++ K)
+      with ((if neg then [tk "NOT"] else []) ++ tk "IN" :: tk "(" :: spell e1 ++ spell_more es ++ tk ")" :: K)
+      by (destruct neg; cbn [app]; rewrite <- ?app_assoc; reflexivity).
+    assert (NE2 : spell_more es ++ tk ")" :: K <> []) by (destruct (spell_more es); discriminate).
+    apply (Parses_in_values _ l neg e1 es (spell e1 ++ spell_more es ++ tk ")" :: K) K).
+    + apply app_nonempty_r. exact NE2.
+    + apply Fo.
+    + eapply no_subquery; eauto.
+    + apply (IHl ltac:(lia)).
+      * destruct neg; apply follow_cons; vm_compute; reflexivity.
+      * cbn [Cont]. apply Parses_loop_stop. destruct neg; reflexivity.
+    + apply (IH1 (le_n _)).
+      * split; [exact NE2|]. destruct es as [|x r']; cbn [spell_more app cur]; vm_compute; reflexivity.
+      * cbn [Cont]. apply Parses_loop_stop. destruct es as [|x r']; cbn [spell_more app cur]; reflexivity.
+    + rewrite Forall_forall in *. intros x Hx. apply (IHes x Hx). lia.
 Qed.
 
 (* ---------- the theorem ---------- *)
@@ -601,7 +800,7 @@ Definition root_level (e : expr) : nat :=
    (numeric literals with a folded sign are primaries for the printer: level 0) *)
 Lemma can_root_level n e : can n e -> root_level e <= n.
 Proof.
-  induction 1 as [n m e H IH L|e A|e H IH|c base v Hc Hu|c v Hc Hu|op e Hop H IH Hf|e H IH|op n l r Ho Hn Hl IHl Hr IHr|op l r Ho Hl IHl Hr IHr];
+  induction 1 as [n m e H IH L|e A|e H IH|c base v Hc Hu|c v Hc Hu|op e Hop H IH Hf|e H IH|op n l r Ho Hn Hl IHl Hr IHr|op l r Ho Hl IHl Hr IHr|neg l Hl IHl|neg l v Hl IHl|neg l s x Hl IHl Hs IHs Hx IHx|neg l x Hl IHl Hx IHx|neg l e1 es Hl IHl H1 IH1 Hes];
     cbn [root_level]; try lia; try (rewrite Ho; lia).
   - destruct A; cbn; lia.
   - destruct Hop as [->|[->| ->]]; cbn; lia.
